@@ -348,6 +348,7 @@ def gen_case(rng, force=(), forbid=()):
     ops = []
     n_steps = rng.choice([2, 3, 4, 5, 7, 9])
     p_np = rng.choice([0.0, 0.1, 0.2])
+    p_feed = rng.choice([0.0, 0.1, 0.25])
 
     def add_calls(paths, nodes_before, count):
         for _ in range(count):
@@ -359,6 +360,16 @@ def gen_case(rng, force=(), forbid=()):
             if rng.random() < p_np:
                 ops.append({"op": "call", "path": path, "arg": {"np": 1}})
                 continue
+            if rng.random() < p_feed:
+                # pass back the very object an earlier call on this path returned
+                prior = [
+                    i
+                    for i, o in enumerate(ops)
+                    if o["op"] == "call" and o["path"] == path and "v" in o["arg"]
+                ]
+                if prior:
+                    ops.append({"op": "call", "path": path, "arg": {"res": rng.choice(prior)}})
+                    continue
             roll = rng.random()
             before = nodes_before.get(str(path))
             if before is not None and roll < 0.35:
@@ -428,11 +439,26 @@ def _value(arg):
     return copy.deepcopy(arg["v"])
 
 
+def _has_model_instance(value, depth=0):
+    from statham.schema.elements import Object
+
+    if isinstance(value, Object):
+        return True
+    if depth > 30:
+        return False
+    if isinstance(value, dict):
+        return any(_has_model_instance(v, depth + 1) for v in value.values())
+    if isinstance(value, (list, tuple)):
+        return any(_has_model_instance(v, depth + 1) for v in value)
+    return False
+
+
 def exec_case(case, log, stats):
     install_validator_order(case.get("perm"))
     model = copy.deepcopy(case["world"])
     live = build(model)
     prev_model = None
+    results = {}
     flips_after = []  # per reconfiguration: did a later call flip its verdict?
     for idx, op in enumerate(case["ops"]):
         if op["op"] != "call":
@@ -449,7 +475,23 @@ def exec_case(case, log, stats):
                 stats.inc("reconfig:on_class")
             continue
         target = live_resolve(live, op["path"])
-        verdict, result, exc = attempt(target, _value(op["arg"]))
+        fed = None
+        is_fed = "res" in op["arg"]
+        if is_fed:
+            # the object a previous call returned, passed back as data.  Model
+            # instances are excluded: a fresh class cannot recognise instances
+            # of the live class, so there would be nothing to compare with.
+            prior = results.get(op["arg"]["res"])
+            if prior is None or prior[0] != "accept" or _has_model_instance(prior[1]) or isinstance(prior[1], NotPassed):
+                log.add(idx, "feed_skipped")
+                stats.inc("feed_skipped")
+                continue
+            fed = prior[1]
+            stats.inc("fed_back_results")
+            verdict, result, exc = attempt(target, fed)
+        else:
+            verdict, result, exc = attempt(target, _value(op["arg"]))
+        results[idx] = (verdict, result)
         nres = norm(result) if verdict == "accept" else None
         log.add(idx, "call", op["path"], verdict, nres)
         stats.inc("calls")
@@ -462,7 +504,7 @@ def exec_case(case, log, stats):
             stats.inc("notpassed_calls")
         fresh = build(model)
         fverdict, fresult, _ = attempt(
-            live_resolve(fresh, op["path"]), _value(op["arg"])
+            live_resolve(fresh, op["path"]), fed if is_fed else _value(op["arg"])
         )
         fnres = norm(fresult) if fverdict == "accept" else None
         if (verdict, nres) != (fverdict, fnres):
@@ -471,7 +513,7 @@ def exec_case(case, log, stats):
                 "op_index": idx,
                 "detail": {"live": [verdict, nres], "fresh": [fverdict, fnres]},
             }
-        if case.get("pristine"):
+        if case.get("pristine") and not is_fed:
             # the same call on a fresh tree in a process that has never
             # validated anything: catches state kept outside the tree
             pverdict, pnres = common.pristine(
@@ -488,7 +530,7 @@ def exec_case(case, log, stats):
                         "same_process_fresh_tree": [fverdict, fnres],
                     },
                 }
-        if prev_model is not None and flips_after and not flips_after[-1]:
+        if prev_model is not None and flips_after and not flips_after[-1] and not is_fed:
             try:
                 old = build(prev_model)
                 overdict, oresult, _ = attempt(
